@@ -119,6 +119,7 @@ struct nni_pipe {
 	nni_atomic_bool    p_closed;
 	nni_atomic_flag    p_stop;
 	bool               p_starting; // protocol pipe_start running (s_mx)
+	bool               p_counted;  // included in the "pipes" statistics
 	nni_reap_node      p_reap;
 	nni_refcnt         p_refcnt;
 	nng_pipe_ev        p_last_event;
